@@ -311,6 +311,43 @@ def _check_tensor_sample(case, t, S, stats):
     stats["identities"] += 4
 
 
+def _check_montecarlo_integrate(case, t, S, si, stats):
+    """The MonteCarlo interpretation of Integrate(t, g, vars) must equal the
+    exact integral of g against the sample drawn from the same random state
+    (a deterministic function of the state, through Delta integration rules)."""
+    from collections import OrderedDict
+
+    import numpy as np
+
+    import funsor
+    from funsor import ops
+    from funsor.integrate import Integrate
+    from funsor.montecarlo import MonteCarlo
+
+    from sim import oracle, seams
+
+    gdata = 0.25 + 0.5 * np.arange(int(np.prod(case["sizes"]))).reshape(case["sizes"]) % 3.0
+    g = funsor.Tensor(gdata, OrderedDict((n, funsor.Bint[s]) for n, s in zip(case["names"], case["sizes"])))
+    rvars = frozenset(funsor.Variable(n, funsor.Bint[case["sizes"][case["names"].index(n)]]) for n in case["sampled"])
+    stream = seams.RandomStream(case["cid"] * 7 + 1)
+    try:
+        with seams.random_stream(stream):
+            with MonteCarlo(**si):
+                mc = Integrate(t, g, rvars)
+        exact = Integrate(S, g, rvars)
+        msg = oracle.compare(funsor.reinterpret(exact), funsor.reinterpret(mc), rtol=1e-6, atol=1e-9)
+    except (oracle.Declined, AssertionError, NotImplementedError, ValueError):
+        stats["declined"] += 1
+        return
+    stats["identities"] += 1
+    stats["montecarlo_integrals"] = stats.get("montecarlo_integrals", 0) + 1
+    if msg is not None:
+        raise Violation(
+            "montecarlo-integrate",
+            "Integrate under MonteCarlo differs from the exact integral against the sample of the same random state: " + msg,
+        )
+
+
 def _mk_gaussian(case):
     from collections import OrderedDict
 
@@ -665,6 +702,8 @@ def _run_case(args):
             stats["rand_calls"] += len(stream.calls)
             _check_tensor_sample(case, t, S, stats)
             digest = oracle.digest(S)
+            if mode != "edge":
+                _check_montecarlo_integrate(case, t, S, si, stats)
         elif case["kind"] == "gaussian":
             digest = _check_gaussian(case, stats, case["cid"] * 7 + 2)
         else:
@@ -716,6 +755,7 @@ def run_cases(payload):
             st = rr["stats"]
             for k in ("identities", "points_checked", "declined", "rand_calls", "randn_calls"):
                 tot[k] += st[k]
+            tot["montecarlo_integrals"] = tot.get("montecarlo_integrals", 0) + st.get("montecarlo_integrals", 0)
             for k, v in st["edge_draws"].items():
                 edge[k] = edge.get(k, 0) + v
             for p in st["prefix"]:
@@ -852,6 +892,7 @@ def summarize(jobs, results, tier):
         "samples": samples or [{"note": "none"}],
         "exhaustive": False,
         "identities_checked": tot.get("identities", 0),
+        "montecarlo_integrate_consistency_checks": tot.get("montecarlo_integrals", 0),
         "sample_points_checked_in_support": tot.get("points_checked", 0),
         "rand_calls_served": tot.get("rand_calls", 0),
         "randn_calls_served": tot.get("randn_calls", 0),
